@@ -187,6 +187,10 @@ def handle (d : DSt) (n : Nat) (line : String) : IO DSt := do
   let node := d.node
   match pre, post with
   | [], _ => return d
+  | _ :: _, ["DIED", _] =>
+    -- the real code crashed during this operation: nothing is replayed at all
+    if !d.caseFailed then IO.println s!"SPECFAIL line={n} case={d.caseNo} clause=no_crash"
+    return { d with specfails := d.specfails + 1, caseFailed := true, died := d.died + 1 }
   | ["C", _, now, pf, dA, dB, dC], _ =>
     match parseInt? now, parseBool? pf, parseInt? dA, parseInt? dB, parseInt? dC with
     | some now, some pf, some dA, some dB, some dC =>
@@ -310,10 +314,6 @@ def handle (d : DSt) (n : Nat) (line : String) : IO DSt := do
         { node with snd := start now node.snd }
       finish { d with restarts := d.restarts + 1 } n "start" node' "" "" pos (some .restart)
     | none => bad
-  | ["DIED", _], _ =>
-    -- the real code crashed during the operation that follows the last observed line: no replay at all
-    if !d.caseFailed then IO.println s!"SPECFAIL line={n} case={d.caseNo} clause=no_crash"
-    return { d with specfails := d.specfails + 1, caseFailed := true, died := d.died + 1 }
   | _, _ => bad
 
 def main : IO Unit := do
